@@ -6,7 +6,7 @@
 From Coq Require Import ZArith List String Bool.
 From Model Require Import PyBase PeriodicTable Stereo Rdkit.
 From Gen Require Import Elements RdkitTables StereoTables.
-From Proofs Require Import StereoProofs RdkitProofs.
+From Proofs Require Import StereoProofs RdkitProofs RdkitExt.
 Import ListNotations.
 Open Scope string_scope.
 Open Scope Z_scope.
@@ -318,3 +318,144 @@ Theorem C20_bridge_molecule_to_from_example :
     Ok ([mkR 7 15 1 0 3 1; mkR 29 0 1 0 0 2], rbs).
 Proof. exact to_from_mol_example. Qed.
 Print Assumptions C20_bridge_molecule_to_from_example.
+
+(* ---- configuration over whole molecules: to_rdkit_molecule then from_rdkit_molecule ---- *)
+(* the sign translation between ANY two arrangements u (registry order) and v (listed order) of one neighbour set *)
+Theorem C20_translate_any_two_arrangements : forall (isH : Z -> bool) a b c d u v s,
+  NoDup [a; b; c; d] -> In u perms4 -> In v perms4 ->
+  translate_th isH (sel [a; b; c; d] u) (sel [a; b; c; d] v) s = Ok (xorb s (xorb (odd_perm u) (odd_perm v))).
+Proof. exact translate_th_general4. Qed.
+Print Assumptions C20_translate_any_two_arrangements.
+
+(* ALL tetrahedral labels of a molecule.  [atoms] = (number, label) in enumeration order, [th] / [th'] the stereogenic
+   registries of the molecule given / rebuilt, [nb] RDKit's neighbour function (indices), [rho] the renumbering.  Hypothesis
+   [atoms_wf]: every labelled stereogenic centre has 4 heavy neighbours, 3 + implicit hydrogen or 3 + a hydrogen atom, RDKit
+   lists them in SOME arrangement p and the rebuilt molecule holds them, renamed, in SOME arrangement q (p, q arbitrary, per
+   centre).  Then the third loop of to_rdkit_molecule writes a tag for exactly these centres, from_rdkit_molecule reads every
+   one of them back as a label s' that denotes the same configuration ([same_configuration]: translated to the renamed old
+   neighbour order it is the old label), and unlabelled / non-stereogenic atoms get no label. *)
+Theorem C20_bridge_stereo_molecule_tetrahedra : forall (isH isH' : Z -> bool) th th' nums nb rho atoms k,
+  atoms_wf isH isH' th th' nums nb rho k atoms ->
+  exists tags, to_tags isH th nums nb k atoms = Ok tags /\
+    exists labels', from_tags isH' th' nb k (map tag_name tags) = Ok labels' /\
+                    Forall2 (label_image isH' th th' rho) atoms labels'.
+Proof. exact tetrahedra_from_to. Qed.
+Print Assumptions C20_bridge_stereo_molecule_tetrahedra.
+
+(* the renumbering the code performs (k-th atom -> k + 1) satisfies the hypothesis on [rho] of [atoms_wf] *)
+Theorem C20_renumbering_satisfies_hypothesis : forall nums,
+  NoDup nums ->
+  (forall k, 0 <= k < Z.of_nat (List.length nums) -> rho_of nums (znth nums k 0) = k + 1) /\
+  (forall l, (forall j, In j l -> 0 <= j < Z.of_nat (List.length nums)) ->
+             map (fun j => j + 1) l = map (rho_of nums) (map (fun j => znth nums j 0) l)).
+Proof. intros nums Hn. split; [intros k Hk; apply rho_of_nth; assumption | intros l Hl; apply rho_of_env; assumption]. Qed.
+Print Assumptions C20_renumbering_satisfies_hypothesis.
+
+Theorem C20_bridge_stereo_molecule_example :
+  let nums := [3; 7; 9; 4] in
+  let atoms := [(3, None); (7, Some true); (9, None); (4, None)] in
+  let th := [(7, [3; 9; 4])] in
+  let th' := [(2, [1; 4; 3])] in
+  let nb := fun k => if k =? 1 then [2; 0; 3] else [1] in
+  atoms_wf (fun _ => false) (fun _ => false) th th' nums nb (rho_of nums) 0 atoms /\
+  to_tags (fun _ => false) th nums nb 0 atoms = Ok [None; Some "CHI_TETRAHEDRAL_CW"; None; None] /\
+  from_tags (fun _ => false) th' nb 0 (map tag_name [None; Some "CHI_TETRAHEDRAL_CW"; None; None]) =
+    Ok [(1, None); (2, Some false); (3, None); (4, None)] /\
+  translate_th (fun _ => false) [1; 4; 3] (map (rho_of nums) [3; 9; 4]) false = Ok true.
+Proof. exact tetrahedra_example. Qed.
+Print Assumptions C20_bridge_stereo_molecule_example.
+
+(* ---- direction of a coordinate bond and the order of the atoms ---- *)
+(* the code looks at the FIRST atom of the pair data.bonds() yields: when both atoms are inside `_inorganic` or both outside,
+   the two enumerations of ONE bond give opposite directions -- for every such pair *)
+Theorem C20_dative_direction_follows_order : forall s1 s2 n m, n <> m ->
+  smem s1 inorganic = smem s2 inorganic ->
+  exists b e, to_bond s1 n m 8 = Ok (b, e, "DATIVE") /\ to_bond s2 m n 8 = Ok (e, b, "DATIVE") /\ (b, e) <> (e, b).
+Proof. exact dative_direction_follows_order. Qed.
+Print Assumptions C20_dative_direction_follows_order.
+
+(* "one bond, one direction" is false for the code as it is (boron is not in the set: B~Co; both inside: N~O) *)
+Theorem C20_dative_direction_order_refuted :
+  ~ (forall s1 s2 n m, to_bond s1 n m 8 = Ok (n, m, "DATIVE") <-> to_bond s2 m n 8 = Ok (n, m, "DATIVE")) /\
+  smem "B" inorganic = false /\ smem "Co" inorganic = false /\
+  to_bond "B" 1 2 8 = Ok (2, 1, "DATIVE") /\ to_bond "Co" 2 1 8 = Ok (1, 2, "DATIVE") /\
+  to_bond "N" 1 2 8 = Ok (1, 2, "DATIVE") /\ to_bond "O" 2 1 8 = Ok (2, 1, "DATIVE").
+Proof. exact dative_direction_order_refuted. Qed.
+Print Assumptions C20_dative_direction_order_refuted.
+
+(* the suggested rule (look at both atoms; exchange only when the first is outside the set S and the second inside): one
+   direction from both enumerations whenever exactly one atom is inside S, ... *)
+Theorem C20_dative_fixed_order_independent : forall S s_in s_out n m o,
+  smem s_in S = true -> smem s_out S = false ->
+  to_bond_fixed S s_in s_out n m o = to_bond_fixed S s_out s_in m n o /\
+  (forall t, bond_type o = Ok t -> to_bond_fixed S s_in s_out n m o = Ok (n, m, t)).
+Proof. exact dative_fixed_order_independent. Qed.
+Print Assumptions C20_dative_fixed_order_independent.
+
+(* ... it is the rule of the code on every pair with exactly one atom inside `_inorganic`, ... *)
+Theorem C20_dative_fixed_agrees_with_code : forall s_n s_m n m o,
+  smem s_n inorganic <> smem s_m inorganic -> to_bond_fixed inorganic s_n s_m n m o = to_bond s_n n m o.
+Proof. exact dative_fixed_agrees_with_code. Qed.
+Print Assumptions C20_dative_fixed_agrees_with_code.
+
+(* ... with 'B' added to the set it repairs the witness, ... *)
+Theorem C20_dative_fixed_repairs_witness :
+  to_bond_fixed ("B" :: inorganic) "B" "Co" 1 2 8 = Ok (1, 2, "DATIVE") /\
+  to_bond_fixed ("B" :: inorganic) "Co" "B" 2 1 8 = Ok (1, 2, "DATIVE").
+Proof. exact dative_fixed_repairs_witness. Qed.
+Print Assumptions C20_dative_fixed_repairs_witness.
+
+(* ... and it does NOT make two atoms of one class order-free (missing: a direction-free bond type for them) *)
+Theorem C20_dative_fixed_same_class_partial : forall S s1 s2 n m,
+  smem s1 S = smem s2 S -> to_bond_fixed S s1 s2 n m 8 = Ok (n, m, "DATIVE") /\ to_bond_fixed S s2 s1 m n 8 = Ok (m, n, "DATIVE").
+Proof. exact dative_fixed_same_class_partial. Qed.
+Print Assumptions C20_dative_fixed_same_class_partial.
+
+(* ALL double-bond labels of a molecule.  [bond_wf] relates each chython bond to what RDKit holds for it: nothing written ->
+   no E/Z label; a labelled tetrasubstituted plain double bond -> RDKit may name ANY reference atoms (and reports the label
+   relative to them), run the bond in either direction, and the rebuilt molecule may key its registry entry by either
+   orientation with the substituents of each end in either order; a labelled double bond with missing substituents
+   (hydrogens) -> RDKit keeps the references it was given and the rebuilt entry is the renamed old one.  Then the fourth loop
+   writes exactly the labelled plain double bonds and from_rdkit_molecule reads each back as a label that, translated to the
+   renamed old reference atoms, is the old label.
+   PARTIAL: missing for the full statement are double bonds with missing substituents under re-referencing / another
+   substituent order of the rebuilt entry (needs translate_env_lawH for every such arrangement). *)
+Theorem C20_bridge_stereo_molecule_double_bonds_partial :
+  forall (isH' : Z -> bool) rho centers ct ct' bonds rbonds,
+  Forall2 (bond_wf rho centers ct ct') bonds rbonds ->
+  exists outs, to_bond_labels centers ct bonds = Ok outs /\
+    exists labels', from_bond_labels isH' ct' rbonds = Ok labels' /\
+                    Forall2 (blabel_image isH' rho centers ct ct') bonds labels'.
+Proof. exact double_bonds_from_to. Qed.
+Print Assumptions C20_bridge_stereo_molecule_double_bonds_partial.
+
+(* one tetrasubstituted double bond, every choice RDKit and the rebuilt molecule have *)
+Theorem C20_bridge_stereo_double_bond_any_registry :
+  forall (isH' : Z -> bool) (rho : Z -> Z) n0 n1 n2 n3 y0 y1 y2 y3 sw c0 c1 a b s label' nn nm e_be e_eb,
+  let old := (n0, n1, n2, n3) in
+  let N' := (y0, y1, y2, y3) in
+  let E' := (y0, y1, Some y2, Some y3) in
+  NoDup [y0; y1; y2; y3] ->
+  (forall i, In i [0; 1; 2; 3] -> rho (pick old i) = pick N' (pmap sw c0 c1 i)) ->
+  In a [0; 2] -> In b [1; 3] ->
+  sign_of_bs label' = Some (xorb s (ct_parity a b)) ->
+  ((nn = rho (pick old a) /\ nm = rho (pick old b)) \/ (nn = rho (pick old b) /\ nm = rho (pick old a))) ->
+  ((e_be = Some E' /\ e_eb = None) \/ (e_be = None /\ e_eb = Some E')) ->
+  to_bond_stereo (n0, n1, Some n2, Some n3) s = (n0, n1, bs_of_sign s) /\
+  exists s', from_bond_stereo isH' e_be e_eb nn nm label' = Ok (Some s') /\
+             translate_env isH' E' (rho n0) (rho n1) s' = Ok s.
+Proof. exact bond_roundtrip. Qed.
+Print Assumptions C20_bridge_stereo_double_bond_any_registry.
+
+Theorem C20_bridge_stereo_molecule_double_bonds_example :
+  let centers := [(2, (2, 3)); (3, (2, 3))] in
+  let ct := [(2, 3, (1, 4, Some 5, Some 6))] in
+  let ct' := [(3, 2, (4, 5, Some 6, Some 1))] in
+  let bonds := [(1, 2, None); (2, 3, Some true); (3, 4, None)] in
+  let rbonds := [(0, 1, "STEREONONE", 0, 0); (2, 1, "STEREOZ", 3, 0); (2, 3, "STEREONONE", 0, 0)] in
+  Forall2 (bond_wf (fun x => x) centers ct ct') bonds rbonds /\
+  to_bond_labels centers ct bonds = Ok [None; Some (1, 4, "STEREOZ"); None] /\
+  from_bond_labels (fun _ => false) ct' rbonds = Ok [(1, 2, None); (3, 2, Some false); (3, 4, None)] /\
+  translate_env (fun _ => false) (4, 5, Some 6, Some 1) 1 4 false = Ok true.
+Proof. exact double_bonds_example. Qed.
+Print Assumptions C20_bridge_stereo_molecule_double_bonds_example.
